@@ -125,6 +125,50 @@ def last_step_facts(spec):
     return rg != "-", removed.count(b"\n") != inserted.count(b"\n")
 
 
+def column_token_grammar(lang, _cache={}):
+    """Does the language's external scanner read the column (lexer->get_column)?  Then its tokens can be
+    column-dependent (depends_on_column)."""
+    if lang not in _cache:
+        try:
+            src = open(os.path.join(os.path.dirname(os.path.dirname(os.path.abspath(__file__))), "zoo", lang, "scanner.c")).read()
+        except OSError:
+            src = ""
+        _cache[lang] = "get_column" in src
+    return _cache[lang]
+
+
+def ranges_in_history(spec):
+    """Are included ranges given anywhere in the history (initial parse or any step)?"""
+    f = spec.split(" ")
+    return len(f) == 5 and (f[3] != "-" or any(st.count(",") == 3 and not st.endswith(",-") for st in f[4].split("|")))
+
+
+def point_col(text, pos):
+    """column (bytes since the last line break) of byte offset pos"""
+    return pos - (text.rfind(b"\n", 0, pos) + 1)
+
+
+def some_edit_shifts_columns(spec):
+    """Does some edit of the history move the text that follows it on the line of its old end to another
+    COLUMN (absolute new_end_point.column != old_end_point.column)?  That is exactly when column-dependent
+    tokens after the edit on that line have to be invalidated by ts_subtree_edit."""
+    f = spec.split(" ")
+    if len(f) != 5:
+        return False
+    text = b"" if f[2] == "-" else bytes.fromhex(f[2])
+    for st in f[4].split("|"):
+        if st.count(",") != 3:
+            continue
+        s_, oe, ins, _ = st.split(",")
+        s_, oe = int(s_), int(oe)
+        new = apply_edit(text, st)
+        ne = s_ + (0 if ins == "-" else len(ins) // 2)
+        if point_col(text, oe) != point_col(new, ne):
+            return True
+        text = new
+    return False
+
+
 def run_pipeline(ctx, explorer, cunit, driver, args, tag):
     """explorer -> ops/langs; cunit -> tables; driver -> result lines. Returns (specs, lines, msg)."""
     ops = os.path.join(ctx.workdir, "ops-%s.txt" % tag)
@@ -152,6 +196,16 @@ def run_pipeline(ctx, explorer, cunit, driver, args, tag):
             _, cid, rest = line.rstrip("\n").split(" ", 2)
             specs[cid] = rest
     ctx.gate_variant = gate_variant(ops)
+    # side file of the explorer (round 11): how the two public trees of a case differ (same | zw | other)
+    if tag != "shrink":
+        ctx.treediff = {}
+    try:
+        for line in open(ops + ".treediff"):
+            a = line.split()
+            if len(a) == 2 and tag != "shrink":
+                ctx.treediff[a[0]] = a[1]
+    except OSError:
+        pass
     rc, out = sh("cat %s %s | %s" % (tables, ops, driver), timeout=3000)
     lines = [l for l in out.split("\n") if l.strip()]
     return specs, lines, msg
@@ -336,8 +390,17 @@ def run(ctx):
                   # … or some edit of the history starts/ends inside a multi-byte character
                   "edit_inside_character": edit_inside_character(spec),
                   "ranges_in_play": last_step_facts(spec)[0],
-                  "edit_changes_line_breaks": last_step_facts(spec)[1]}
+                  "edit_changes_line_breaks": last_step_facts(spec)[1],
+                  # round 11 (C01-column-token-stale-after-column-shift): the language's scanner reads the column;
+                  # the public trees differ ONLY in the kind of zero-width leaves (same shape, same positions);
+                  # some edit of the history shifts the column of what follows it on its line
+                  "column_token_grammar": column_token_grammar(lang),
+                  "tree_diff": getattr(ctx, "treediff", {}).get(cid, "?"),
+                  "edit_shifts_columns": some_edit_shifts_columns(spec),
+                  "ranges_in_history": ranges_in_history(spec)}
             is_known = any(k.get("status") == "known" and match_fp(k.get("match", {}), fp) for k in ctx.known)
+            if os.environ.get("C01_DUMP_FP"):  # debugging aid: every judge failure's fingerprint, one JSON per line
+                open(os.environ["C01_DUMP_FP"], "a").write(json.dumps({"case": cid, "known": is_known, "fp": fp, "spec": spec}) + "\n")
             if kv["judge"].startswith("FAIL") and spec and shrunk < 3 and not ctx.replay and not is_known:
                 shrunk += 1
                 small, trials = shrink(ctx, tools, spec)
@@ -351,7 +414,9 @@ def run(ctx):
                    "empty_included_range": has_empty_range(spec), "only_empty_ranges": only_empty_ranges(spec),
                    "range_splits_character": splits_character(spec), "diff_beyond_old_end": kv.get("diff_beyond_old_end") == "1",
                    "edit_inside_character": edit_inside_character(spec),
-                   "ranges_in_play": last_step_facts(spec)[0], "edit_changes_line_breaks": last_step_facts(spec)[1]}
+                   "ranges_in_play": last_step_facts(spec)[0], "edit_changes_line_breaks": last_step_facts(spec)[1],
+                   "column_token_grammar": column_token_grammar(lang), "tree_diff": getattr(ctx, "treediff", {}).get(cid, "?"),
+                   "edit_shifts_columns": some_edit_shifts_columns(spec), "ranges_in_history": ranges_in_history(spec)}
             if not any(k.get("status") == "known" and match_fp(k.get("match", {}), fpr) for k in ctx.known):
                 relex_unknown += 1
             ctx.violation("judge", "hypothesis LexLocal fails on the real lexer: " + kv.get("relex_note", "").replace("_", " "),
